@@ -1212,6 +1212,7 @@ static Plan gen_mpi(Rng& r, int tier, std::string const& focus)
     o.max_calls = tier ? 400 : 120;
     o.max_iters = 4;
     if (focus == "C16") o.eng_class = 1;
+    if (focus == "C08") o.integ = MULTI;
     gen_world(r, p, o);
     if (focus == "C16") p.eng = E_SCRIPT64;
     static u64 const ps[] = {1, 2, 2, 3, 3, 4, 5, 7, 8, 8, 11, 13, 16, 17, 32, 33};
